@@ -55,6 +55,7 @@ def Kind.goConst : Kind → String
   | .uint => "Uint" | .uint8 => "Uint8" | .uint16 => "Uint16" | .uint32 => "Uint32" | .uint64 => "Uint64" | .uintptr => "Uintptr"
   | .float32 => "Float32" | .float64 => "Float64" | .complex64 => "Complex64" | .complex128 => "Complex128"
   | .string => "String" | .unsafePointer => "UnsafePointer" | .invalid => "Invalid"
+  | .byte => "Uint8" | .rune => "Int32"
 
 /-- **typedKindsOnly**: `toCodeBasic` has a case for every typed basic kind a field can have
 (since the `fix:` commit for uintptr / unsafe.Pointer) -/
